@@ -47,6 +47,9 @@ namespace
         std::vector<size_t> cuts;
         // stall
         bool drip       = false; // body stall past the deadline: keep sending a byte now and then instead of going silent
+        // keep-alive scripts: several requests on one connection; the clock of each starts when its predecessor was completed
+        int keepalive   = 0; // 1: a quick request every `gap_s` for `span_s` seconds (all in time); 2: one quick request, then a second one that stalls in its head
+        double gap_s = 0, span_s = 0;
         size_t stall_at = 0; // bytes sent before the pause
         double stall_s  = 0;
         std::string where;
@@ -134,6 +137,42 @@ namespace
             }
             ::close(fd);
             return;
+        }
+        // ---- keep-alive scripts -----------------------------------------------------------------
+        if (s.keepalive == 1)
+        {
+            int j = 0;
+            while (net::now_s() - t0 < s.span_s && s.fail_sig.empty())
+            {
+                std::string tag = s.tag + "-" + std::to_string(j++);
+                double at       = net::now_s() - t0;
+                if (!net::send_all(fd, "GET " + tag + " HTTP/1.1\r\nHost: x\r\n\r\n") || !net::read_message(fd, carry, true, m, 6000, err))
+                {
+                    s.fail_sig = "C14/timing/no-response";
+                    s.fail_msg = s.desc + ": request " + std::to_string(j) + " sent " + std::to_string(at).substr(0, 4) + " s after connect: " + (err.empty() ? "send failed (connection closed)" : err);
+                }
+                else if (m.status != 200)
+                {
+                    s.fail_sig = m.status == 408 ? "C14/timing/timed-out-although-in-time" : "C14/timing/unexpected-status";
+                    s.fail_msg = s.desc + ": request " + std::to_string(j) + " sent " + std::to_string(at).substr(0, 4) + " s after connect, at most " + std::to_string(s.gap_s).substr(0, 4)
+                        + " s after its predecessor was answered: status " + std::to_string(m.status);
+                }
+                else
+                    net::sleep_ms(int(s.gap_s * 1000));
+            }
+            ::close(fd);
+            return;
+        }
+        if (s.keepalive == 2)
+        {
+            if (!net::send_all(fd, "GET " + s.tag + "-first HTTP/1.1\r\nHost: x\r\n\r\n") || !net::read_message(fd, carry, true, m, 6000, err) || m.status != 200)
+            {
+                s.fail_sig = "C14/timing/no-response";
+                s.fail_msg = s.desc + ": the first request was not answered 200: " + err;
+                ::close(fd);
+                return;
+            }
+            t0 = net::now_s(); // the second request's clock starts here; below it is handled like any stall script
         }
         // ---- stall script ---------------------------------------------------------------------
         if (s.stall_at)
@@ -365,6 +404,45 @@ namespace verif
             s.desc          = "stall script " + s.tag + ": one body byte every 0.1-0.4 s after " + std::to_string(s.stall_at) + " bytes, never complete, expecting 408 at the body time-out";
             rep.label(s.drip ? "stall:body:past(dripping, never silent)" : "stall:body:past");
             nt = true;
+            desc_all += s.desc + "; ";
+            scripts.push_back(s);
+        }
+        if (with_stalls && std::min(th, tb) >= 1.5)
+        {
+            // (derived from the configuration, no choice consumed) a keep-alive connection that lives longer than
+            // both time-outs: a quick request every 0.4 x deadline (at most deadline - 1.1 s) for 2.2 x deadline; each request's clock starts
+            // when its predecessor was completed, so none of them may be timed out
+            double d = std::min(th, tb);
+            Script s;
+            s.kind          = Script::Stall;
+            s.keepalive     = 1;
+            s.tag           = "/ka";
+            s.gap_s         = std::min(0.4 * d, d - 1.1); // each request is sent at least 1.1 s before its deadline (0.5 s scan period + slack)
+            s.span_s        = 2.2 * d;
+            s.expect_status = 200;
+            s.nontrivial    = true;
+            s.desc          = "keep-alive script: a quick request every " + std::to_string(s.gap_s).substr(0, 3) + " s for " + std::to_string(s.span_s).substr(0, 3) + " s on one connection, all expecting 200";
+            rep.label("keep-alive:connection-older-than-the-time-outs,every-request-in-time");
+            nt = true;
+            desc_all += s.desc + "; ";
+            scripts.push_back(s);
+        }
+        if (with_stalls && n % 3 == 0)
+        {
+            // (derived) the second request of a keep-alive connection stalls in its head: 408 within the deadline
+            // counted from the completion of the first
+            Script s;
+            s.kind          = Script::Stall;
+            s.keepalive     = 2;
+            s.tag           = "/second";
+            size_t head_len = 0;
+            s.wire          = make_request(s.tag, std::min<size_t>(L, 300), head_len);
+            s.where         = "headers";
+            s.stall_at      = 30;
+            s.stall_s       = std::min(th, tb) + 1.1;
+            s.expect_status = 408;
+            s.desc          = "keep-alive script: a first request answered 200, then the second request stalls after 30 bytes, expecting 408";
+            rep.label("keep-alive:second-request-stalls-in-its-head");
             desc_all += s.desc + "; ";
             scripts.push_back(s);
         }
